@@ -117,6 +117,19 @@ def cases(tier, seed):
     # a generic matrix as the other, through every storage path: n = 2, 3 complete, n = 4 complete (256)
     for n in (2, 3, 4):
         out.append({"key": f"sel/n={n}", "grp": "sel", "n": n})
+    # LARGE RESULTS (not large inner dimensions): m x 1 times 1 x n with m = 2^16 rows (and the transpose), every n in a contiguous range, so
+    # that for any element-count block size E of a result-panelled kernel between 2^17 and 2^22 some n hits n = q * (E // m) + 1, + 0, - 1;
+    # plus squarish results around the same counts.  Dense paths only (the result is dense).
+    NB = 40 if tier == "quick" else 130
+    for nn in range(2, NB + 1):
+        out.append({"key": f"big/rows=65536/n={nn}", "grp": "big", "m": 65536, "k": 1, "n": nn})
+        out.append({"key": f"big/cols=65536/m={nn}", "grp": "big", "m": nn, "k": 1, "n": 65536})
+    for (mm, nn) in ((3000, 263), (3000, 262), (1024, 769), (1024, 768), (887, 887), (886, 888), (1024, 1025), (2048, 385), (513, 1537)) if tier != "quick" else ((3000, 263), (1024, 769), (887, 887)):
+        out.append({"key": f"big/{mm}x{nn}", "grp": "big", "m": mm, "k": 2, "n": nn})
+    # every pattern of component supports on tiny row / column shapes: the entries of A and B each confined to one of the 16 subsets of
+    # {1,i,j,k} (value 1 on each active component), all combinations; (1x1)(1x2), (2x1)(1x1) complete, (1x2)(2x1) over five supports
+    for shp in ("1x1x2", "2x1x1", "1x1x3", "1x2x1", "2x1x2"):
+        out.append({"key": f"supp/{shp}", "grp": "supp", "shp": shp})
     # aliased operands (the same object on both sides) and non-canonical sparse storage
     for n in range(1, 5):
         out.append({"key": f"x/aliased_and_noncanonical/{n}", "grp": "x", "n": n})
@@ -379,6 +392,60 @@ def run_case(case, seed):
                 Cexp[..., c] += sg * (Ai[..., a] @ Bi[..., b])
         nontriv += len(PATHS)
         check_product(Ai.astype(float), Bi.astype(float), Cexp.astype(float), f"{m}x{k}x{n} integer entries", {"grp": "k"})
+    elif grp == "big":
+        m, k, n = case["m"], case["k"], case["n"]
+        fill = G.Fill(seed, stream=hash_tag(case["key"]))
+        Ai = fill.ints((m, k, 4), -2, 2)
+        Bi = fill.ints((k, n, 4), -2, 2)
+        Ai[-1, :, 0] = 2  # last row / last column never zero
+        Bi[:, -1, 0] = 2
+        Cexp = np.zeros((m, n, 4), dtype=np.int64)
+        for a in range(4):
+            for b in range(4):
+                sg, c = O.TABLE[a][b]
+                Cexp[..., c] += sg * (Ai[..., a] @ Bi[..., b])
+        for path in ("dd", "tq"):
+            ok, got = call(product, lib, path, Ai.astype(float), Bi.astype(float))
+            evals += 1
+            nontriv += 1
+            paths_seen.add(path)
+            if not ok:
+                fails.append(fail("product_raised", f"{m}x{k}x{n} path={path}: {type(got).__name__}: {got}", path=path, grp="big"))
+            elif not exact_eq(got, Cexp.astype(float)):
+                bad = np.argwhere((np.asarray(got) != Cexp).any(axis=-1))
+                fails.append(fail("product!=definition", f"{m}x{k}x{n} path={path}: {len(bad)} wrong entries, first at {bad[0].tolist() if len(bad) else None}", path=path, grp="big"))
+    elif grp == "supp":
+        m, k, n = (int(t) for t in case["shp"].split("x"))
+        full = list(range(16))
+        five = [1, 2, 5, 10, 15]
+        ea, eb = m * k, k * n
+        dom_a = full if ea == 1 else (five if ea * eb > 3 else full)
+        dom_b = full if (eb <= 2 and ea == 1) or (eb == 1) else five
+        if ea == 2 and eb == 1:
+            dom_a = full
+        for sa in itertools.product(dom_a, repeat=ea):
+            if not any(sa):
+                continue
+            Ai = np.zeros((m, k, 4), dtype=np.int64)
+            for t, msk in enumerate(sa):
+                for c in range(4):
+                    if (msk >> c) & 1:
+                        Ai[t // k, t % k, c] = 1
+            for sb in itertools.product(dom_b, repeat=eb):
+                if not any(sb):
+                    continue
+                Bi = np.zeros((k, n, 4), dtype=np.int64)
+                for t, msk in enumerate(sb):
+                    for c in range(4):
+                        if (msk >> c) & 1:
+                            Bi[t // n, t % n, c] = 1
+                Cexp = O.qmatmul(Ai, Bi).astype(float)
+                nontriv += len(PATHS)
+                check_product(Ai.astype(float), Bi.astype(float), Cexp, f"supports A={sa} B={sb}", {"grp": "supp"})
+                if len(fails) > 40:
+                    break
+            if len(fails) > 40:
+                break
     elif grp == "x":
         n = case["n"]
         u = lib.utils
